@@ -133,6 +133,8 @@ type fgen struct {
 	sepCmtOK      bool // comments next to a message-literal separator
 	mixSpelling   bool // custom file options may be spelled (x), (pkg.x) and (.pkg.x) in one file
 	fileOptStyle  int
+	mixedEOL      bool // every line break is drawn: LF or CRLF
+	crlfBlankOK   bool // CRLF files may have a blank line inside a block comment
 	blockEndOK    bool // line comments may contain "*/" (e.g. a glob `**/*.proto`)
 	crlf          bool
 	noisy         int // percentage of gaps that get noise
@@ -1550,6 +1552,8 @@ func genFile(t *rapid.T) (string, Facts) {
 	}
 	g.allowEmptyCmt = g.pct("emptycmt", 10)
 	g.crlf = g.pct("crlf", 5)
+	g.mixedEOL = !g.crlf && g.pct("mixedeol", 3)
+	g.crlfBlankOK = g.pct("crlfblankok", 20)
 	// trigger shapes of open findings are generated in a small share of the files (the rest is counted
 	// under excluded_by_construction) so that the search sees what lies behind them
 	g.glueOK = g.pct("glueok", 4) && !off("glue")
@@ -1749,7 +1753,7 @@ func genFile(t *rapid.T) (string, Facts) {
 		}
 	}
 	g.facts.Wild = g.wild
-	g.facts.CRLF = g.crlf
+	g.facts.CRLF = g.crlf || g.mixedEOL
 	g.facts.EmptyStmtCmts = g.allowEmptyCmt
 	g.facts.Tokens = len(g.toks)
 	src := g.render()
@@ -1761,7 +1765,7 @@ func (g *fgen) pick2(label string, xs ...int) int { return xs[g.intn(label, 0, l
 // ---- noise layer ---------------------------------------------------------------------------
 
 func (g *fgen) nl() string {
-	if g.crlf {
+	if g.crlf || (g.mixedEOL && g.pct("eolcr", 40)) {
 		return "\r\n"
 	}
 	return "\n"
@@ -1832,6 +1836,11 @@ func (g *fgen) blockComment(multi bool, indent string) string {
 	case 4:
 		return "/*" + nl + "\t" + id + nl + "\t\ttabbed" + nl + "*/"
 	case 5:
+		if strings.Contains(nl, "\r") && !g.crlfBlankOK {
+			// CRLF + a blank line inside a block comment: trigger of not-idempotent:whitespace:crlf-block-comment
+			excluded("not-idempotent:whitespace:crlf-block-comment")
+			return "/* " + id + nl + indent + "   no blank */"
+		}
 		return "/* " + id + nl + nl + indent + "after blank */"
 	default:
 		return "/*" + nl + indent + " | " + id + nl + indent + " | piped" + nl + indent + " */"
